@@ -454,4 +454,401 @@ theorem generated_lists_merge :
         r.combine == "mergeIter:compareDescriptor" && r.callee == "both" && r.member == "Referrers" && r.args == r.params) = some true := by
   decide
 
+
+/-! ### 8. The machine the engine drives: `Unify.step` over two `ocimem` members
+
+§§1–4 are about the combinators. This section states the same clauses for `Unify.step` itself (two `Mem` members,
+policy, upload-ID codec), as equations on the stepped state and on the answer, so that a step that dropped a
+write, or reported a success one member did not have, would contradict a theorem here (`step_members` above is a
+disjunction such a step would satisfy).
+
+What `step` does NOT do, and is therefore not claimed: it does not roll back. Every write that reaches the members
+steps BOTH of them whatever the two answers are (`write_steps_both`), so after a write that failed on one member
+only, the other member keeps the effect (witness `one_sided_delete` below); and a resume that the unifier refuses
+because the two writers disagree on the size has nevertheless resumed both member uploads
+(`write_ok_iff_both_ok_open`). `Close` is not an operation of the `Mem` model (the driver answers it from the table
+of live writers); `Size` is answered locally (`generated_write_combinators`: `local:size`). -/
+
+/-- A member's answer is a success. -/
+def okM (o : Mem.Out) : Bool := (ofOut o).isOk
+
+/-- The unifier's answer is a success (`listErr` is a listing that ended in an error). -/
+def okU : UOut → Bool
+  | .out o => okM o
+  | .listErr .. => false
+
+/-- The operations that change a registry: Writer and Deleter methods and the mutating methods of a blob writer. -/
+def isWrite : Mem.Op → Bool
+  | .pushBlob .. | .pushManifest .. | .mount .. | .deleteBlob .. | .deleteManifest .. | .deleteTag ..
+  | .pushChunked .. | .resume .. | .wWrite .. | .wCancel .. | .wCommit .. => true
+  | _ => false
+
+/-- Writes whose answer is a member's answer (everything except the two calls that open a writer). -/
+def isAnswerWrite : Mem.Op → Bool
+  | .pushBlob .. | .pushManifest .. | .mount .. | .deleteBlob .. | .deleteManifest .. | .deleteTag ..
+  | .wWrite .. | .wCancel .. | .wCommit .. => true
+  | _ => false
+
+/-- A method of a unified blob writer can only be called on an object the client holds. -/
+def Live (s : UState) : Mem.Op → Prop
+  | .wWrite r id _ | .wCancel r id | .wCommit r id _ | .wSize r id => (Mem.alookup (wkey r id) s.writers).isSome = true
+  | _ => True
+
+/-- The upload ID an operation carries. -/
+def idOf : Mem.Op → Option Bytes
+  | .resume _ id _ | .wWrite _ id _ | .wSize _ id | .wCancel _ id | .wCommit _ id _ => some id
+  | _ => none
+
+/-- The same operation, same arguments, on another upload ID. -/
+def withID (x : Bytes) : Mem.Op → Mem.Op
+  | .resume r _ off => .resume r x off
+  | .wWrite r _ d => .wWrite r x d
+  | .wSize r _ => .wSize r x
+  | .wCancel r _ => .wCancel r x
+  | .wCommit r _ dg => .wCommit r x dg
+  | op => op
+
+section stepthms
+variable (H : Bytes → Bytes) (C : Codec)
+
+/-- What the two member calls are: the call itself when it carries no upload ID; otherwise the same call with the
+same arguments on each half of the composite ID. -/
+theorem fan_spec (op : Mem.Op) :
+    fan C op = match idOf op with
+      | none => some (op, op)
+      | some id => (splitID C id).map fun ab => (withID ab.1 op, withID ab.2 op) := by
+  cases op <;> simp [fan, idOf, withID]
+
+theorem write_steps_both (pol : Policy) (f : Bool) (s : UState) (op op0 op1 : Mem.Op)
+    (hw : isWrite op = true) (hl : Live s op) (hf : fan C op = some (op0, op1)) :
+    (step H C pol f s op).1.m0 = (Mem.step H s.m0 op0).1 ∧
+    (step H C pol f s op).1.m1 = (Mem.step H s.m1 op1).1 := by
+  cases op with
+  | wWrite r id d | wCancel r id | wCommit r id dg =>
+    obtain ⟨sz, hsz⟩ := Option.isSome_iff_exists.mp hl
+    unfold step; simp only [hf, hsz]; (repeat' split) <;> (first | exact ⟨rfl, rfl⟩ | simp)
+  | _ =>
+    first
+      | (simp [isWrite] at hw; done)
+      | (unfold step; simp only [hf]; (repeat' split) <;> (first | exact ⟨rfl, rfl⟩ | simp))
+
+
+/-- When the call never reaches the members — a composite ID that does not decode, or a writer method on an
+object the client does not hold — nothing changes and the answer is an error. -/
+theorem write_not_fanned (pol : Policy) (f : Bool) (s : UState) (op : Mem.Op)
+    (h : fan C op = none ∨ ¬ Live s op) :
+    (step H C pol f s op).1 = s ∧ okU (step H C pol f s op).2 = false := by
+  rcases h with h | h
+  · unfold step; simp only [h]; split <;> exact ⟨rfl, rfl⟩
+  · cases op with
+    | wWrite r id d | wCancel r id | wCommit r id dg | wSize r id =>
+      have hn : Mem.alookup (wkey r id) s.writers = none := by
+        simpa [Live] using h
+      unfold step
+      split
+      · split <;> exact ⟨rfl, rfl⟩
+      · simp [hn, okU, okM, ofOut, Res.isOk]
+    | _ => exact absurd trivial h
+
+
+/-- Which success-only-if-both rule `step` applies to a write (cf. `generated_write_combinators`). -/
+def combOf : Mem.Op → Res Mem.Out → Res Mem.Out → Res Mem.Out
+  | .pushBlob .. | .pushManifest .. => eqOk
+  | _ => bothResults
+
+/-- The link between the machine and the combinators of §4: the answer of `step` to a write IS the combinator
+applied to the two members' answers (`Write` returns the length of its argument when the combinator succeeds),
+so `bothResults_ok_iff`, `eqOk_ok_iff` and `write_answer` speak about `step`. -/
+theorem write_out_is_combinator (pol : Policy) (f : Bool) (s : UState) (op op0 op1 : Mem.Op)
+    (hw : isAnswerWrite op = true) (hl : Live s op) (hf : fan C op = some (op0, op1)) :
+    (step H C pol f s op).2 = .out
+      (match op with
+       | .wWrite _ _ d =>
+         (match bothResults (ofOut (Mem.step H s.m0 op0).2) (ofOut (Mem.step H s.m1 op1).2) with
+          | .ok _ => .okN d.length
+          | .err c => .err c)
+       | _ => toOut (combOf op (ofOut (Mem.step H s.m0 op0).2) (ofOut (Mem.step H s.m1 op1).2))) := by
+  cases op with
+  | wWrite r id d =>
+    obtain ⟨sz, hsz⟩ := Option.isSome_iff_exists.mp hl
+    unfold step; simp only [hf, hsz]; split <;> simp_all
+  | wCancel r id | wCommit r id dg =>
+    obtain ⟨sz, hsz⟩ := Option.isSome_iff_exists.mp hl
+    unfold step; simp only [hf, hsz, combOf]
+  | _ =>
+    first
+      | (simp [isAnswerWrite] at hw; done)
+      | (unfold step; simp only [hf, combOf])
+
+/-- **Success only if both.** For every write whose answer is a member's answer, the unifier's answer is a
+success iff both members' answers are, and it is then member 0's. -/
+theorem write_ok_iff_both_ok (pol : Policy) (f : Bool) (s : UState) (op op0 op1 : Mem.Op)
+    (hw : isAnswerWrite op = true) (hl : Live s op) (hf : fan C op = some (op0, op1)) :
+    (okU (step H C pol f s op).2 = true ↔
+      okM (Mem.step H s.m0 op0).2 = true ∧ okM (Mem.step H s.m1 op1).2 = true) ∧
+    (okU (step H C pol f s op).2 = true → (step H C pol f s op).2 = .out (Mem.step H s.m0 op0).2) := by
+  cases op with
+  | wWrite r id d =>
+    obtain ⟨sz, hsz⟩ := Option.isSome_iff_exists.mp hl
+    have hf' := hf
+    simp only [fan, Option.map_eq_some_iff] at hf'
+    obtain ⟨⟨a, b⟩, -, hab⟩ := hf'
+    simp only [Prod.mk.injEq] at hab
+    obtain ⟨rfl, rfl⟩ := hab
+    have h0 := mem_write_out H s.m0 r a d
+    unfold step; simp only [hf, hsz]
+    generalize (Mem.step H s.m0 (Mem.Op.wWrite r a d)).2 = o0 at h0 ⊢
+    generalize (Mem.step H s.m1 (Mem.Op.wWrite r b d)).2 = o1
+    rcases h0 with ⟨c, rfl⟩ | rfl <;> cases o1 <;> simp [ofOut, bothResults, okU, okM, Res.isOk]
+  | wCancel r id | wCommit r id dg =>
+    obtain ⟨sz, hsz⟩ := Option.isSome_iff_exists.mp hl
+    unfold step; simp only [hf, hsz]
+    generalize (Mem.step H s.m0 op0).2 = o0
+    generalize (Mem.step H s.m1 op1).2 = o1
+    cases o0 <;> cases o1 <;> simp [ofOut, toOut, bothResults, okU, okM, Res.isOk]
+  | _ =>
+    first
+      | (simp [isAnswerWrite] at hw; done)
+      | (unfold step; simp only [hf]
+         generalize (Mem.step H s.m0 op0).2 = o0
+         generalize (Mem.step H s.m1 op1).2 = o1
+         cases o0 <;> cases o1 <;> simp [ofOut, toOut, bothResults, eqOk, okU, okM, Res.isOk])
+
+
+/-- The size a member reports for an upload (what `w.Size()` returns on the member's writer). -/
+def msize (m : Mem.State) (r id : Bytes) : Int :=
+  match (Mem.step H m (.wSize r id)).2 with | .okN n => n | _ => 0
+
+/-- The repository argument of the two calls that open a writer. -/
+def openRepo : Mem.Op → Option Bytes
+  | .pushChunked r | .resume r _ _ => some r
+  | _ => none
+
+/-- **Success only if both, for the calls that open a writer.** `PushBlobChunked` succeeds iff both members hand
+out a writer; `PushBlobChunkedResume` iff, in addition, the two writers report the same size — here `step` is
+STRICTER than "iff both succeeded": two members that both resume, at different sizes, make the unifier fail
+("registries do not agree on upload size") although both member calls succeeded and (by `write_steps_both`) both
+members have been stepped. On success the answer is the composite of the two members' IDs. -/
+theorem write_ok_iff_both_ok_open (pol : Policy) (f : Bool) (s : UState) (op op0 op1 : Mem.Op) (r : Bytes)
+    (hr : openRepo op = some r) (hf : fan C op = some (op0, op1)) :
+    (okU (step H C pol f s op).2 = true ↔
+      ∃ id0 id1, (Mem.step H s.m0 op0).2 = .okWriter id0 ∧ (Mem.step H s.m1 op1).2 = .okWriter id1 ∧
+        ((∃ id off, op = .resume r id off) →
+          msize H (Mem.step H s.m0 op0).1 r id0 = msize H (Mem.step H s.m1 op1).1 r id1)) ∧
+    (okU (step H C pol f s op).2 = true → okM (Mem.step H s.m0 op0).2 = true ∧ okM (Mem.step H s.m1 op1).2 = true) ∧
+    (∀ id0 id1, okU (step H C pol f s op).2 = true →
+      (Mem.step H s.m0 op0).2 = .okWriter id0 → (Mem.step H s.m1 op1).2 = .okWriter id1 →
+      (step H C pol f s op).2 = .out (.okWriter (joinID C id0 id1))) := by
+  cases op with
+  | pushChunked r' =>
+    simp only [openRepo, Option.some.injEq] at hr; subst hr
+    have hf' := hf
+    simp only [fan, Option.some.injEq, Prod.mk.injEq] at hf'
+    obtain ⟨rfl, rfl⟩ := hf'
+    have h0 := mem_open_out H s.m0 (.pushChunked r') ⟨r', Or.inl rfl⟩
+    have h1 := mem_open_out H s.m1 (.pushChunked r') ⟨r', Or.inl rfl⟩
+    unfold step; simp only [hf]
+    generalize Mem.step H s.m0 (Mem.Op.pushChunked r') = p0 at h0 ⊢
+    generalize Mem.step H s.m1 (Mem.Op.pushChunked r') = p1 at h1 ⊢
+    obtain ⟨m0', o0⟩ := p0
+    obtain ⟨m1', o1⟩ := p1
+    simp only at h0 h1 ⊢
+    rcases h0 with ⟨c0, rfl⟩ | ⟨i0, rfl⟩ <;> rcases h1 with ⟨c1, rfl⟩ | ⟨i1, rfl⟩ <;>
+      simp [ofOut, toOut, bothResults, okU, okM, Res.isOk]
+  | resume r' id off =>
+    simp only [openRepo, Option.some.injEq] at hr; subst hr
+    have hf' := hf
+    simp only [fan, Option.map_eq_some_iff] at hf'
+    obtain ⟨⟨a, b⟩, -, hab⟩ := hf'
+    simp only [Prod.mk.injEq] at hab
+    obtain ⟨rfl, rfl⟩ := hab
+    have h0 := mem_open_out H s.m0 (.resume r' a off) ⟨r', Or.inr ⟨a, off, rfl⟩⟩
+    have h1 := mem_open_out H s.m1 (.resume r' b off) ⟨r', Or.inr ⟨b, off, rfl⟩⟩
+    unfold step; simp only [hf]
+    generalize Mem.step H s.m0 (Mem.Op.resume r' a off) = p0 at h0 ⊢
+    generalize Mem.step H s.m1 (Mem.Op.resume r' b off) = p1 at h1 ⊢
+    obtain ⟨m0', o0⟩ := p0
+    obtain ⟨m1', o1⟩ := p1
+    simp only at h0 h1 ⊢
+    rcases h0 with ⟨c0, rfl⟩ | ⟨i0, rfl⟩ <;> rcases h1 with ⟨c1, rfl⟩ | ⟨i1, rfl⟩
+    · simp [ofOut, toOut, bothResults, okU, okM, Res.isOk]
+    · simp [ofOut, toOut, bothResults, okU, okM, Res.isOk]
+    · simp [ofOut, toOut, bothResults, okU, okM, Res.isOk]
+    · have hex : ∀ P : Bytes → Bytes → Prop,
+          (∃ id0 id1, Mem.Out.okWriter i0 = Mem.Out.okWriter id0 ∧ Mem.Out.okWriter i1 = Mem.Out.okWriter id1 ∧ P id0 id1) ↔ P i0 i1 := by
+        intro P
+        constructor
+        · rintro ⟨x, y, hx, hy, hp⟩
+          cases hx; cases hy; exact hp
+        · intro hp; exact ⟨i0, i1, rfl, rfl, hp⟩
+      rw [hex]
+      simp only [msize]
+      generalize (Mem.step H m0' (Mem.Op.wSize r' i0)).2 = w0
+      generalize (Mem.step H m1' (Mem.Op.wSize r' i1)).2 = w1
+      cases w0 <;> cases w1 <;> dsimp only <;> split <;> simp_all [okU, okM, ofOut, Res.isOk]
+  | _ => simp [openRepo] at hr
+
+/-! Reads -/
+
+def isDigestRead : Mem.Op → Bool
+  | .getBlob .. | .getBlobRange .. | .getManifest .. | .resolveBlob .. | .resolveManifest .. => true
+  | _ => false
+
+def isTagRead : Mem.Op → Bool
+  | .getTag .. | .resolveTag .. => true
+  | _ => false
+
+/-- A read leaves an `ocimem` member as it was (so it is immaterial that `step` does not thread the members
+through reads, and that the sequential policy does not ask member 1 after a success). -/
+theorem read_leaves_member (m : Mem.State) (op : Mem.Op) (h : isDigestRead op = true ∨ isTagRead op = true) :
+    (Mem.step H m op).1 = m := by
+  cases op <;> simp [isDigestRead, isTagRead] at h <;> simp only [Mem.step] <;> (repeat' split) <;> rfl
+
+/-- **Digest reads are the union.** The unifier's answer to a digest-addressed read is a success iff one
+member's answer is, and it is the answer of the member examined first (member 0 under the sequential policy,
+whichever answers first under the concurrent one) if that is a success, otherwise the other member's answer. -/
+theorem read_is_union_step (pol : Policy) (f : Bool) (s : UState) (op : Mem.Op) (hr : isDigestRead op = true) :
+    (step H C pol f s op).1 = s ∧
+    (okU (step H C pol f s op).2 = true ↔
+      okM (Mem.step H s.m0 op).2 = true ∨ okM (Mem.step H s.m1 op).2 = true) ∧
+    (step H C pol f s op).2 = .out
+      (if pol = .sequential ∨ f = true
+       then (if okM (Mem.step H s.m0 op).2 then (Mem.step H s.m0 op).2 else (Mem.step H s.m1 op).2)
+       else (if okM (Mem.step H s.m1 op).2 then (Mem.step H s.m1 op).2 else (Mem.step H s.m0 op).2)) := by
+  cases op <;> simp [isDigestRead] at hr <;>
+    (unfold step; simp only [fan]
+     generalize (Mem.step H s.m0 _).2 = o0
+     generalize (Mem.step H s.m1 _).2 = o1
+     cases pol <;> cases f <;> cases o0 <;> cases o1 <;>
+       simp [ofOut, toOut, readFirst, okU, okM, Res.isOk])
+
+/-- **Tag reads follow the tag rule** of the two members' answers … -/
+theorem tag_read_is_tagRule_step (pol : Policy) (f : Bool) (s : UState) (op : Mem.Op) (hr : isTagRead op = true) :
+    (step H C pol f s op).1 = s ∧
+    (step H C pol f s op).2 =
+      .out (toOut (tagRule outDigest (ofOut (Mem.step H s.m0 op).2) (ofOut (Mem.step H s.m1 op).2))) := by
+  cases op <;> simp [isTagRead] at hr <;> (unfold step; simp [fan])
+
+/-- … hence: a tag read succeeds iff some member has the tag and the two do not disagree on its digest, and a
+successful answer is a member's answer. -/
+theorem tag_read_step (pol : Policy) (f : Bool) (s : UState) (op : Mem.Op) (hr : isTagRead op = true) :
+    (okU (step H C pol f s op).2 = true ↔
+      (okM (Mem.step H s.m0 op).2 = true ∨ okM (Mem.step H s.m1 op).2 = true) ∧
+      (okM (Mem.step H s.m0 op).2 = true → okM (Mem.step H s.m1 op).2 = true →
+        outDigest (Mem.step H s.m0 op).2 = outDigest (Mem.step H s.m1 op).2)) ∧
+    (okU (step H C pol f s op).2 = true →
+      (step H C pol f s op).2 = .out (Mem.step H s.m0 op).2 ∨ (step H C pol f s op).2 = .out (Mem.step H s.m1 op).2) := by
+  rw [(tag_read_is_tagRule_step H C pol f s op hr).2]
+  generalize (Mem.step H s.m0 op).2 = o0
+  generalize (Mem.step H s.m1 op).2 = o1
+  cases o0 <;> cases o1 <;> simp only [ofOut, tagRule] <;> (try split) <;>
+    simp_all [toOut, okU, okM, ofOut, Res.isOk]
+
+
+/-- Writes that carry no upload ID: both members make the call itself. -/
+theorem write_steps_both_plain (pol : Policy) (f : Bool) (s : UState) (op : Mem.Op)
+    (hw : isWrite op = true) (hid : idOf op = none) :
+    (step H C pol f s op).1.m0 = (Mem.step H s.m0 op).1 ∧
+    (step H C pol f s op).1.m1 = (Mem.step H s.m1 op).1 := by
+  have hf := fan_spec C op
+  rw [hid] at hf
+  have hl : Live s op := by cases op <;> simp [idOf] at hid <;> trivial
+  exact write_steps_both H C pol f s op op op hw hl hf
+
+/-- Writes on a composite upload ID (lawful codec): member 0 makes the call on the first half, member 1 the same
+call, same arguments, on the second half. -/
+theorem write_steps_both_id (hC : CodecLawful C) (pol : Policy) (f : Bool) (s : UState) (op : Mem.Op) (a b : Bytes)
+    (hw : isWrite op = true) (hl : Live s op) (hid : idOf op = some (joinID C a b)) :
+    (step H C pol f s op).1.m0 = (Mem.step H s.m0 (withID a op)).1 ∧
+    (step H C pol f s op).1.m1 = (Mem.step H s.m1 (withID b op)).1 := by
+  have hf := fan_spec C op
+  rw [hid] at hf
+  simp only [split_join C hC, Option.map_some] at hf
+  exact write_steps_both H C pol f s op _ _ hw hl hf
+
+end stepthms
+
+/-! Witnesses: the hypotheses of the theorems of this section hold on non-trivial instances, and the
+weaker-than-one-might-hope behaviours named above really occur. (`wH`: the identity as the hash; `escCodec`.) -/
+
+def wH : Bytes → Bytes := fun b => b
+def wr : Bytes := strBytes "a"
+def wtag : Bytes := strBytes "v1"
+
+/-- After `PushBlobChunked("a")` through the unifier over two empty members: one live writer. -/
+def wS1 : UState := (step wH escCodec .sequential true (uinit false) (.pushChunked wr)).1
+def wid : Bytes := joinID escCodec (Mem.freshID 0) (Mem.freshID 0)
+
+/-- `write_steps_both`, `write_ok_iff_both_ok`, `write_out_is_combinator`, `write_steps_both_id`: a `Write` on the
+live writer is a write with a live writer whose ID splits; it succeeds and changes both members. -/
+example : isWrite (.wWrite wr wid [1, 2]) = true ∧ isAnswerWrite (.wWrite wr wid [1, 2]) = true ∧
+    Live wS1 (.wWrite wr wid [1, 2]) ∧ idOf (.wWrite wr wid [1, 2]) = some wid ∧
+    (fan escCodec (.wWrite wr wid [1, 2])).isSome = true ∧
+    (step wH escCodec .sequential true wS1 (.wWrite wr wid [1, 2])).2 = .out (.okN 2) ∧
+    (step wH escCodec .sequential true wS1 (.wWrite wr wid [1, 2])).1.m0 ≠ wS1.m0 ∧
+    (step wH escCodec .sequential true wS1 (.wWrite wr wid [1, 2])).1.m1 ≠ wS1.m1 := by
+  refine ⟨rfl, rfl, ?_, rfl, ?_, ?_, ?_, ?_⟩
+  · unfold Live; decide
+  all_goals decide
+
+/-- `write_steps_both_plain`, `write_ok_iff_both_ok_open`: `PushBlobChunked` carries no upload ID, names its
+repository, reaches both members and answers with the composite of their two IDs. -/
+example : isWrite (.pushChunked wr) = true ∧ idOf (.pushChunked wr) = none ∧ openRepo (.pushChunked wr) = some wr ∧
+    (fan escCodec (.pushChunked wr)).isSome = true ∧
+    (step wH escCodec .sequential true (uinit false) (.pushChunked wr)).2 = .out (.okWriter wid) := by
+  refine ⟨rfl, rfl, rfl, ?_, ?_⟩ <;> decide
+
+/-- `write_not_fanned`: an ID that does not decode; a `Commit` on a writer nobody holds. -/
+example : (fan escCodec (.resume wr [7] 0)).isNone = true ∧ ¬ Live (uinit false) (.wCommit wr wid []) := by
+  refine ⟨by decide, ?_⟩
+  unfold Live; decide
+
+/-- Member 0 has the tag `v1` in repository `a`, member 1 has the repository without the tag. -/
+def wM0 : Mem.State := ⟨false, [(wr, ⟨[(wtag, ⟨[], [], 0⟩)], [], [], []⟩)], 0⟩
+def wM1 : Mem.State := ⟨false, [(wr, Mem.emptyRepo)], 0⟩
+
+/-- **No rollback** (`one_sided_delete`): `DeleteTag` through the unifier when only member 0 has the tag. Member 0's
+delete succeeds, member 1's fails, the unifier reports the failure (`write_ok_iff_both_ok`) — and member 0 has lost
+its tag (`write_steps_both`): "success only if both" is about the ANSWER, the members are both stepped regardless. -/
+example :
+    let s : UState := ⟨wM0, wM1, []⟩
+    let op : Mem.Op := .deleteTag wr wtag
+    okM (Mem.step wH s.m0 op).2 = true ∧ okM (Mem.step wH s.m1 op).2 = false ∧
+    okU (step wH escCodec .sequential true s op).2 = false ∧
+    (step wH escCodec .sequential true s op).1.m0 ≠ s.m0 ∧
+    isTagRead (.resolveTag wr wtag) = true ∧
+    -- before the delete the tag read through the unifier gives member 0's answer (`tag_read_step`)
+    (step wH escCodec .sequential true s (.resolveTag wr wtag)).2 = .out (Mem.step wH s.m0 (.resolveTag wr wtag)).2 ∧
+    okU (step wH escCodec .sequential true s (.resolveTag wr wtag)).2 = true := by
+  decide
+
+/-- The same upload `u` of repository `a`, holding one byte on member 0 and nothing on member 1. -/
+def wU0 : Mem.State := ⟨false, [(wr, ⟨[], [], [], [([117], ⟨[1], -1, false, none⟩)]⟩)], 0⟩
+def wU1 : Mem.State := ⟨false, [(wr, ⟨[], [], [], [([117], ⟨[], -1, false, none⟩)]⟩)], 0⟩
+
+/-- **A resume is stricter than "iff both"** (`write_ok_iff_both_ok_open`): both members resume the upload, the
+sizes differ, the unifier fails. -/
+example :
+    let s : UState := ⟨wU0, wU1, []⟩
+    let op : Mem.Op := .resume wr (joinID escCodec [117] [117]) (-1)
+    openRepo op = some wr ∧ (fan escCodec op).isSome = true ∧
+    okM (Mem.step wH s.m0 (.resume wr [117] (-1))).2 = true ∧ okM (Mem.step wH s.m1 (.resume wr [117] (-1))).2 = true ∧
+    msize wH (Mem.step wH s.m0 (.resume wr [117] (-1))).1 wr [117] = 1 ∧
+    msize wH (Mem.step wH s.m1 (.resume wr [117] (-1))).1 wr [117] = 0 ∧
+    (step wH escCodec .sequential true s op).2 = .out (.err "ERR") := by
+  decide
+
+/-- Only member 1 has the blob `[9]` (content `[5, 6]`) in repository `a`. -/
+def wB1 : Mem.State := ⟨false, [(wr, ⟨[], [], [([9], ⟨[116], [5, 6], [], []⟩)], []⟩)], 0⟩
+
+/-- `read_is_union_step`, `read_leaves_member`: a digest read of content only member 1 has succeeds under both
+policies and whichever member answers first, with member 1's answer; member 0's own answer is an error. -/
+example :
+    let s : UState := ⟨wM1, wB1, []⟩
+    let op : Mem.Op := .getBlob wr [9]
+    isDigestRead op = true ∧ okM (Mem.step wH s.m0 op).2 = false ∧ okM (Mem.step wH s.m1 op).2 = true ∧
+    (∀ pol f, (step wH escCodec pol f s op).2 = .out (Mem.step wH s.m1 op).2) := by
+  refine ⟨rfl, by decide, by decide, ?_⟩
+  intro pol f; cases pol <;> cases f <;> decide
+
 end OciModel.Props.C15
